@@ -14,7 +14,7 @@ CLAIM = ("Proved in Coq for the model: LogSpecification::parse is total (it cann
          "on a grid of levels and targets around the filter names, like a logger that got the specification directly). LogSpecBuilder incl. "
          "from_module_filters, insert_modules_from, the level constructors and the TryFrom impls go through the same observation.")
 THEOREMS = ["C17_parse_exact", "C17_parse_ok_iff", "C17_display_roundtrip", "C17_toml_roundtrip"]
-TRUSTED = ["modelled, not verified: str::split/trim/char::is_whitespace/to_lowercase (Unicode tables pinned in DESIGN appendix D), "
+TRUSTED = ["modelled, not verified: str::split/trim/char::is_whitespace/to_lowercase (the White_Space table and the case folding used are written out in coq/LogSpec/Spec.v and tied by the Unicode-soup cases), "
            "Vec::sort_by stability, HashMap/BTreeMap, the toml crate's text syntax, Regex::new (literal patterns only)"]
 ASSUMPTIONS = ["regex parts of generated strings are literal patterns or one of a few known-invalid patterns"]
 RULE = ("`spec` cases: a specification string (45 % well-formed from the grammar, 35 % with malformed parts, 20 % Unicode soup incl. "
